@@ -4,6 +4,7 @@ import (
 	"fmt"
 	"go/constant"
 	"go/token"
+	"sort"
 	"strings"
 
 	"golang.org/x/tools/go/ssa"
@@ -14,9 +15,10 @@ import (
 func init() { Registry["C11"] = c11 }
 
 func c11(c *core.Ctx) map[string]interface{} {
-	c.Explanation = "Static digit-placement check of the SUCI / PLMN encodings (C11). Decided: (R11.hex) hexCharToByte maps '0'..'9' to 0..9 and never yields more than a nibble; (R11.nib) in EncodeSuci, for both MNC lengths, the nibble provenance of octets 1..3 is (MCC2|MCC1),(MNC3 or F|MCC3),(MNC2|MNC1) (TS 24.501 9.11.3.4 / TS 38.413 PLMNIdentity), the MSIN starts after 5 resp. 6 digits, the MSIN loop packs digit pairs (i+1|i) from i=0 in steps of 2 with filler F for a final odd digit, and the decision between the two layouts is mncLen > 2; (R11.hdr) octet 0 is SUPI format IMSI<<4 | type SUCI, routing indicator F0 FF, protection scheme 0, key id 0, Len is the final buffer length; (R11.sib) the library's own PlmnIDToNas places the digits identically (sibling agreement), with filler F exactly when the MNC has not 3 digits; (R11.plmn) ManageNGSetup announces octets 1..3 of EncodeSuci(IMSI, len(mnc)), BuildNGSetupRequest stores that value in TestPlmn and in the PLMN fields of the request, and every builder behind a wrapper that main uses takes its PLMN identities from TestPlmn. NOT decided: digit values for non-decimal characters; PLMNs of builders the emulator never calls (listed under C13)."
+	c.Explanation = "Static digit-placement check of the SUCI / PLMN encodings (C11). Decided: (R11.hex) hexCharToByte maps '0'..'9' to 0..9 and never yields more than a nibble; (R11.hexconst) every constant that can reach hexCharToByte (traced backwards through slices, appends, merges and package-local helper parameters) is a hexadecimal digit character, so no filler or literal digit is silently turned into 0; (R11.nib) in EncodeSuci, for both MNC lengths, the nibble provenance of octets 1..3 is (MCC2|MCC1),(MNC3 or F|MCC3),(MNC2|MNC1) (TS 24.501 9.11.3.4 / TS 38.413 PLMNIdentity), the MSIN starts after 5 resp. 6 digits, the MSIN loop packs digit pairs (i+1|i) from i=0 in steps of 2 with filler F for a final odd digit, and the decision between the two layouts is mncLen > 2; (R11.hdr) octet 0 is SUPI format IMSI<<4 | type SUCI, routing indicator F0 FF, protection scheme 0, key id 0, Len is the final buffer length; (R11.sib) the library's own PlmnIDToNas places the digits identically (sibling agreement), with filler F exactly when the MNC has not 3 digits; (R11.plmn) ManageNGSetup announces octets 1..3 of EncodeSuci(IMSI, len(mnc)), BuildNGSetupRequest stores that value in TestPlmn and in the PLMN fields of the request, and every builder behind a wrapper that main uses takes its PLMN identities from TestPlmn. NOT decided: digit values for non-decimal characters; PLMNs of builders the emulator never calls (listed under C13)."
 	c.Assumptions = []string{"IMSI digits arrive as ASCII decimal characters, MCC has 3 digits (TS 23.003)"}
 	r11hex(c)
+	r11hexconst(c)
 	r11suci(c)
 	r11sib(c)
 	r11plmn(c)
@@ -610,4 +612,217 @@ func r11plmn(c *core.Ctx) {
 	}
 	c.Check(setOK, R, "ngapTestpacket.BuildNGSetupRequest:TestPlmn", b.Pos(), "TestPlmn.Value = caller's PLMN", "BuildNGSetupRequest must remember the caller's PLMN in TestPlmn")
 	c.Check(nPlmn >= 2 && nPlmn == nFromTest, R, "ngapTestpacket.BuildNGSetupRequest:plmn-fields", b.Pos(), fmt.Sprintf("%d PLMN fields, all = TestPlmn", nPlmn), "%d of %d PLMN fields of the NG Setup Request are not the announced PLMN", nPlmn-nFromTest, nPlmn)
+}
+
+// r11hexconst: hexCharToByte maps every octet that is not a hexadecimal digit
+// character to 0 without complaint. A constant that can reach its argument —
+// directly, as an element of a digit slice literal, or appended to a digit slice as
+// a filler — must therefore be such a character ('f' for the filler nibble, not the
+// value 0x0f, which comes out as digit 0). The origins of every argument are traced
+// backwards through slices, appends, merges and the parameters of package-local
+// helpers.
+func r11hexconst(c *core.Ctx) {
+	const R = "R11.hexconst"
+	c.Rule(R, "every constant that can reach hexCharToByte is a hexadecimal digit character (a filler is the character 'f', not the value 0x0f)")
+	hex := mustFunc(c, pStg, "hexCharToByte")
+	sp := c.P.SSAPkg(pStg)
+	var callers []*ssa.Function
+	for _, f := range allFuncsOf(sp) {
+		if len(core.CallsTo(f, pStg+".hexCharToByte")) > 0 {
+			callers = append(callers, f)
+		}
+	}
+	sort.Slice(callers, func(i, j int) bool { return core.FuncName(callers[i]) < core.FuncName(callers[j]) })
+	type konst struct {
+		v   int64
+		pos token.Pos
+		fn  *ssa.Function
+	}
+	var found []konst
+	seen := map[ssa.Value]bool{}
+	nOrigins := 0
+	var trace func(v ssa.Value, fn *ssa.Function, d int)
+	// elements of a slice/array value
+	var traceElems func(v ssa.Value, fn *ssa.Function, d int)
+	trace = func(v ssa.Value, fn *ssa.Function, d int) {
+		if v == nil || seen[v] || d > 12 {
+			return
+		}
+		seen[v] = true
+		switch x := v.(type) {
+		case *ssa.Const:
+			if k, ok := core.ConstInt(x); ok {
+				found = append(found, konst{k, token.NoPos, fn})
+			}
+		case *ssa.Convert:
+			trace(x.X, fn, d+1)
+		case *ssa.ChangeType:
+			trace(x.X, fn, d+1)
+		case *ssa.Phi:
+			for _, e := range x.Edges {
+				trace(e, fn, d+1)
+			}
+		case *ssa.UnOp:
+			if x.Op != token.MUL {
+				return
+			}
+			switch a := x.X.(type) {
+			case *ssa.IndexAddr:
+				traceElems(a.X, fn, d+1)
+			case *ssa.Alloc:
+				for _, r := range core.Referrers(a) {
+					if st, ok := r.(*ssa.Store); ok && st.Addr == ssa.Value(a) {
+						trace(st.Val, fn, d+1)
+					}
+				}
+			default:
+				nOrigins++
+			}
+		case *ssa.Index:
+			traceElems(x.X, fn, d+1)
+		case *ssa.Parameter:
+			// callers inside the package
+			idx := -1
+			for i, q := range fn.Params {
+				if q == x {
+					idx = i
+				}
+			}
+			n := 0
+			for _, g := range allFuncsOf(sp) {
+				for _, ci := range core.CallsTo(g, core.FuncName(fn)) {
+					if idx >= 0 && idx < len(ci.Common().Args) {
+						n++
+						trace(ci.Common().Args[idx], g, d+1)
+					}
+				}
+			}
+			if n == 0 {
+				nOrigins++
+			}
+		default:
+			nOrigins++
+		}
+	}
+	traceElems = func(v ssa.Value, fn *ssa.Function, d int) {
+		if v == nil || d > 12 {
+			return
+		}
+		key := v
+		if seen[key] {
+			return
+		}
+		seen[key] = true
+		switch x := v.(type) {
+		case *ssa.Slice:
+			traceElems(x.X, fn, d+1)
+		case *ssa.Phi:
+			for _, e := range x.Edges {
+				traceElems(e, fn, d+1)
+			}
+		case *ssa.Alloc:
+			// array literal or local array: every element store
+			for _, r := range core.Referrers(x) {
+				switch y := r.(type) {
+				case *ssa.IndexAddr:
+					for _, r2 := range core.Referrers(y) {
+						if st, ok := r2.(*ssa.Store); ok && st.Addr == ssa.Value(y) {
+							trace(st.Val, fn, d+1)
+						}
+					}
+				case *ssa.Store:
+					if y.Addr == ssa.Value(x) {
+						traceElems(y.Val, fn, d+1)
+					}
+				case *ssa.Slice:
+					// element stores through a re-slice of the same array (plmn[3] = …)
+					for _, r2 := range core.Referrers(y) {
+						if ia, ok := r2.(*ssa.IndexAddr); ok {
+							for _, r3 := range core.Referrers(ia) {
+								if st, ok := r3.(*ssa.Store); ok && st.Addr == ssa.Value(ia) {
+									trace(st.Val, fn, d+1)
+								}
+							}
+						}
+					}
+				}
+			}
+		case *ssa.UnOp:
+			if x.Op == token.MUL {
+				if a, ok := x.X.(*ssa.Alloc); ok {
+					traceElems(a, fn, d+1)
+					return
+				}
+			}
+			nOrigins++
+		case *ssa.Call:
+			if core.CalleeName(&x.Call) == "builtin.append" {
+				for _, a := range x.Call.Args {
+					traceElems(a, fn, d+1)
+				}
+				return
+			}
+			nOrigins++
+		case *ssa.MakeSlice:
+			// zero-filled: the value 0 can reach the helper only if never overwritten; element stores:
+			for _, r := range core.Referrers(x) {
+				if ia, ok := r.(*ssa.IndexAddr); ok {
+					for _, r2 := range core.Referrers(ia) {
+						if st, ok := r2.(*ssa.Store); ok && st.Addr == ssa.Value(ia) {
+							trace(st.Val, fn, d+1)
+						}
+					}
+				}
+			}
+		case *ssa.Parameter:
+			idx := -1
+			for i, q := range fn.Params {
+				if q == x {
+					idx = i
+				}
+			}
+			n := 0
+			for _, g := range allFuncsOf(sp) {
+				for _, ci := range core.CallsTo(g, core.FuncName(fn)) {
+					if idx >= 0 && idx < len(ci.Common().Args) {
+						n++
+						traceElems(ci.Common().Args[idx], g, d+1)
+					}
+				}
+			}
+			if n == 0 {
+				nOrigins++ // exported entry: digits supplied by the caller of the package
+			}
+		case *ssa.Const:
+			// string constant converted to []byte etc.: not modelled
+			nOrigins++
+		default:
+			nOrigins++
+		}
+	}
+	nCalls := 0
+	for _, f := range callers {
+		for _, ci := range core.CallsTo(f, pStg+".hexCharToByte") {
+			nCalls++
+			trace(ci.Common().Args[0], f, 0)
+		}
+	}
+	bad := 0
+	for _, k := range found {
+		r, ok := core.FoldCall(hex, []int64{k.v})
+		isHexChar := (k.v >= '0' && k.v <= '9') || (k.v >= 'a' && k.v <= 'f') || (k.v >= 'A' && k.v <= 'F')
+		key := fmt.Sprintf("stgutg.%s:const:%d", k.fn.Name(), k.v)
+		if isHexChar && ok {
+			c.Ok(R, key, k.fn.Pos(), fmt.Sprintf("%q → %d", rune(k.v), r))
+			continue
+		}
+		bad++
+		c.Fail(R, key, k.fn.Pos(), "the constant %#x can reach hexCharToByte in %s; it is not a hexadecimal digit character and is silently mapped to %d: a filler nibble has to be given as the character 'f' (0x66), the value 0x0f comes out as digit 0", k.v, k.fn.Name(), r)
+	}
+	if nCalls < 1 {
+		c.Undecided("R11.hexconst: no hexCharToByte call site found (%d)", nCalls)
+	}
+	if bad == 0 {
+		c.Ok(R, "stgutg.hexCharToByte:arguments", hex.Pos(), fmt.Sprintf("%d call sites traced to %d non-constant origins and %d constants, all hexadecimal digit characters", nCalls, nOrigins, len(found)))
+	}
 }
